@@ -81,6 +81,17 @@ type contractPayment struct {
 
 // GetNodeBalance proxies the normal store implementation
 // by adding the contract deposit to the resulting balance.
+// depositKey is the spelling under which the deposit cache holds an account:
+// the checksummed one that Balance events arrive with. Wallets are free to
+// spell their address differently towards the pool (all lower-case is common);
+// cached under that spelling, their deposit would never be refreshed.
+func depositKey(account store.Account) store.Account {
+	if !common.IsHexAddress(string(account)) {
+		return account
+	}
+	return store.Account(common.HexToAddress(string(account)).Hex())
+}
+
 func (p *contractPayment) GetNodeBalance(nodeID store.NodeID) (store.Balance, error) {
 	balance, err := p.store.GetNodeBalance(nodeID)
 	if err != nil {
@@ -93,7 +104,7 @@ func (p *contractPayment) GetNodeBalance(nodeID store.NodeID) (store.Balance, er
 	}
 
 	// FIXME: Cache this, since it's pretty slow. Use SubscribeBalance to update the cache.
-	deposit, err := p.balanceCache.Get(balance.Account)
+	deposit, err := p.balanceCache.Get(depositKey(balance.Account))
 	if err != nil {
 		return balance, err
 	}
@@ -114,7 +125,7 @@ func (p *contractPayment) GetAccountBalance(account store.Account) (store.Balanc
 	}
 
 	// FIXME: Cache this, since it's pretty slow. Use SubscribeBalance to update the cache.
-	deposit, err := p.balanceCache.Get(account)
+	deposit, err := p.balanceCache.Get(depositKey(account))
 	if err != nil {
 		return balance, err
 	}
@@ -208,6 +219,6 @@ func (p *contractPayment) OpSettle(account store.Account, paymentAmount *big.Int
 	// The deposit we have cached is what was just paid out. Don't wait for the
 	// Balance event of the mined transaction to forget it, or a second
 	// withdraw in the meantime would settle the same deposit again.
-	p.balanceCache.Set(account, new(big.Int).Set(newBalance))
+	p.balanceCache.Set(depositKey(account), new(big.Int).Set(newBalance))
 	return txn.Hash().Hex(), nil
 }
